@@ -6,6 +6,7 @@ package explore
 
 import (
 	"fmt"
+	"runtime"
 	"os"
 	"sort"
 	"strings"
@@ -645,6 +646,7 @@ func DPOR(body func() string, opt Options) *Stats {
 		defer func() { vsched.Deadline = time.Time{} }()
 	}
 	d := &dporStrat{st: st, opt: opt}
+	lastMem := time.Now()
 	for {
 		d.depth, d.lastSched, d.dataDev = 0, -1, 0
 		d.choices, d.ns = nil, nil
@@ -736,10 +738,27 @@ func DPOR(body func() string, opt Options) *Stats {
 			st.Cap = fmt.Sprintf("time cap %s", opt.Deadline)
 			break
 		}
+		// the search stack keeps one vector clock per transition: with thousands of goroutines per execution
+		// that is gigabytes; end the search with a cap before the process outgrows its share of the machine
+		if time.Since(lastMem) > 2*time.Second {
+			lastMem = time.Now()
+			var ms runtime.MemStats
+			runtime.ReadMemStats(&ms)
+			if ms.HeapAlloc > dporMemCap {
+				runtime.GC()
+				runtime.ReadMemStats(&ms)
+				if ms.HeapAlloc > dporMemCap {
+					st.Cap = fmt.Sprintf("memory cap (%d MB of search state)", ms.HeapAlloc>>20)
+					break
+				}
+			}
+		}
 	}
 	st.Wall = time.Since(t0).Seconds()
 	return st
 }
+
+const dporMemCap = 1800 << 20
 
 // Naive explores every choice sequence without any reduction (for tiny harnesses and for validating DPOR).
 // Naive is the reduction-free search: every choice sequence, no bound on the number of deviations. It is a
